@@ -611,6 +611,16 @@ Lemma row_s2p_is_instancewise g :
   instancewise_on tdom (fun p => rows_as_panel (row_s2p g p)) (fun i => [map (pfun_apply g) i]).
 Proof. exact (closed_form_instancewise (TRowS2P g) 0). Qed.
 
+(* RandomIntervalFeatureExtractor GIVEN its fitted intervals (drawn once at fit, then held fixed):
+   C14's rife_apply is validation + a per-instance map as well *)
+Lemma interval_features_are_instancewise feats ivs :
+  instancewise_on tdom (rife_apply feats ivs) (fun i => rife_row feats ivs (only_col i)).
+Proof.
+  exists (tguard (TISegArr []) 0). split; [apply tguard_local|].
+  intro X. unfold rife_apply, apply_guarded. cbn [tguard].
+  destruct (negb (univariate X) || negb (equal_length X)); reflexivity.
+Qed.
+
 (* the fitted parameter must be HELD FIXED: re-fitting on the instance alone changes the row *)
 Lemma refit_on_single_instance_differs :
   let X := [[[1%Q; 2%Q; 3%Q]]; [[4%Q]]] in
